@@ -291,3 +291,91 @@ Proof.
     split; [left; reflexivity|]. split; [unfold EXPRIED_WAIT_LEADER_MAX_TIME; lia|].
     exists (slot_of d). rewrite Hew4. unfold s3. cbn [ewheel set]. apply In_wheel_push.
 Qed.
+
+(* ------------------------------------------------------------------ any sequence of client requests at a non-leader *)
+(* what may differ between two states of a non-leader that only answered client requests: the clock, the
+   UnlockErrorCount / KeyCount counters, and unreferenced key managers that were dropped *)
+Definition follower_rel (s s' : db) : Prop :=
+  leader s' = leader s /\ store s' = store s /\ next s' = next s
+  /\ twheel s' = twheel s /\ tlong s' = tlong s /\ ewheel s' = ewheel s /\ elong s' = elong s
+  /\ checkT s' = checkT s /\ checkE s' = checkE s /\ cfg_aoftime s' = cfg_aoftime s
+  /\ forall k, aget (mgrs s') k = aget (mgrs s) k
+               \/ (aget (mgrs s') k = None /\ exists m, aget (mgrs s) k = Some m /\ m_ref m = 0).
+
+Lemma follower_rel_refl s : follower_rel s s.
+Proof. unfold follower_rel. repeat split; auto. Qed.
+
+Lemma follower_rel_trans a b c : follower_rel a b -> follower_rel b c -> follower_rel a c.
+Proof.
+  unfold follower_rel.
+  intros (A1 & A2 & A3 & A4 & A5 & A6 & A7 & A8 & A9 & A10 & A11) (B1 & B2 & B3 & B4 & B5 & B6 & B7 & B8 & B9 & B10 & B11).
+  repeat (split; [congruence|]).
+  intros k. destruct (B11 k) as [E|(E & m & Em & Er)].
+  - rewrite E. apply A11.
+  - destruct (A11 k) as [E2|(E2 & _)]; [|congruence].
+    right. split; auto. exists m. split; [congruence|auto].
+Qed.
+
+Definition refusal_events (ev : list event) : Prop :=
+  ev = [] \/
+  exists conn req res lc lrc lid cnt rc d,
+    ev = [EReply conn req res lc lrc lid cnt rc d]
+    /\ (res = R_STATE_ERROR \/ res = R_UNLOCK_ERROR \/ res = R_TIMEOUT).
+
+(* client actions: requests that do not claim to come from the replicated log, and the passing of time *)
+Definition client_action (a : action) : Prop :=
+  match a with
+  | AReq _ c => (if c_lock c then has (c_flag c) LOCK_FLAG_FROM_AOF else has (c_flag c) UNLOCK_FLAG_FROM_AOF) = false
+  | AAdvance _ => True
+  | _ => False
+  end.
+
+Lemma follower_step s a :
+  leader s = false -> client_action a ->
+  follower_rel s (fst (step s a)) /\ refusal_events (snd (step s a)).
+Proof.
+  intros Hl Ha. destruct a as [conn c|k| | |r ok|b]; simpl in Ha; try contradiction.
+  - destruct (c_lock c) eqn:Hc.
+    + destruct (lock_pre s conn c) as [ev|] eqn:Hp.
+      * destruct (lock_pre_step_full s conn c ev Hc Hp) as (E & _ & _ & lc & d & Eev). rewrite E. cbn [fst snd].
+        split; [apply follower_rel_refl|]. right. subst ev. do 9 eexists. split; [reflexivity|]. auto.
+      * rewrite (lock_nonleader_step s conn c Hc Hl Ha Hp). cbn [fst snd]. split.
+        -- pose proof (remove_mgr_if_unref_frame s (c_key c)) as F. cbv zeta in F.
+           destruct F as (F1 & F2 & F3 & F4 & F5 & F6 & F7 & F8 & F9 & F10 & F11 & F12 & F13).
+           unfold follower_rel. repeat (split; [assumption|]).
+           intros k. destruct (N.eq_dec k (c_key c)) as [->|Hk]; [|left; apply F1; auto].
+           destruct F2 as [E|(m & Em & Er & En)]; [left; auto|right; eauto].
+        -- right. do 9 eexists. split; [reflexivity|]. auto.
+    + rewrite (unlock_nonleader_step s conn c Hc Hl Ha). cbn [fst snd]. split.
+      * unfold follower_rel. cbn. repeat split; auto.
+      * right. destruct (aget (mgrs s) (c_key c)); do 9 eexists; (split; [reflexivity|]); auto.
+  - simpl. split; [|left; reflexivity]. unfold follower_rel. cbn. repeat split; auto.
+Qed.
+
+Lemma follower_run acts : forall s,
+  leader s = false -> Forall client_action acts ->
+  follower_rel s (fst (run s acts)) /\ Forall refusal_events (snd (run s acts)).
+Proof.
+  induction acts as [|a rest IH]; intros s Hl Ha; simpl.
+  - split; [apply follower_rel_refl|constructor].
+  - inv Ha. destruct (follower_step s a Hl) as (R1 & E1); auto.
+    destruct (step s a) as [s1 e1]. cbn [fst snd] in *.
+    assert (Hl1 : leader s1 = false) by (destruct R1 as (R & _); congruence).
+    destruct (IH s1 Hl1) as (R2 & E2); auto.
+    destruct (run s1 rest) as [s2 es]. cbn [fst snd] in *.
+    split; [eapply follower_rel_trans; eauto|constructor; auto].
+Qed.
+
+(* ------------------------------------------------------------------ the 300 s are counted from the last re-arm, not from
+   the hold's deadline: a follower whose expiry sweep runs regularly keeps a persisted hold indefinitely.
+   Witness: hold with deadline 11 s; follower; sweeps every 100 s; at time 1000 s (989 s past the deadline) the hold is
+   still outstanding (deadline now 1030) and nothing was emitted -- whereas one single sweep at time 1000 ends it. *)
+Definition rearm_s0 : db := fst (run (init_db 0 0) [AReq 1 (mkCmd true 1 0 7 5 0 0 0 10 0 0 None); ARole false]).
+
+Lemma follower_wait_exceeds_300_witness :
+  (let '(s', evs) := run rearm_s0 (concat (repeat [AAdvance 100; ASweepE] 10)) in
+   now s' = 1000%Z /\ concat evs = [] /\ m_locked (getm s' 5) = 1
+   /\ exists l, aget (store s') 1 = Some l /\ l_expried l = false /\ l_locked l = 1 /\ l_eT l = 1030%Z)
+  /\ (let '(s', evs) := run rearm_s0 [AAdvance 1000; ASweepE] in
+      concat evs = [ERelease 5 1 1; EReply 1 1 R_EXPRIED 0 0 7 0 0 None] /\ aget (store s') 1 = None).
+Proof. vm_compute. repeat split; try reflexivity. eexists. repeat split; reflexivity. Qed.
